@@ -270,7 +270,7 @@ pub fn run(tier: Tier, seed: u64) -> MonOut {
         report: rep,
         rule: "generated networks rich in alternatives (grids, rings, parallel edges, hubs) and poor ones (chains, trees, single paths) x 6 k-shortest-path calls each: single-via or Yen, k 1..6 from the configuration or from the query, underlying Dijkstra / A* (weight factor none/1/0/0.5/1.5), similarity default / accept-all / edge-id cosine / distance-weighted cosine at thresholds 0.1..0.99, termination default / exact / max-iteration / factor, vertex or edge oriented; every call under the logical loop budgets (KspOuter, KspInner, LoopTop hook events). oracle: reference reachability and least cost, C01 walk checker, vertex-repeat test, C03 accumulation checker, pairwise identity and independently computed cosine similarity, and a second run with accept-all for the count comparison. non-trivial = >= 2 routes returned or a costlier alternative path exists; distinct by (network, configuration, od, routes)".into(),
         assumptions: vec![
-            "no access model and state units equal to model units, so that 'least cost' is well defined".into(),
+            "state units equal to model units; three quarters of the worlds have no access model so that 'least cost' is well defined (Y2 is decided only there); the rest charge turn delays and get every clause except Y2".into(),
             "first-route optimality only when the underlying search is Dijkstra or A* with weight factor <= 1 on a metric network".into(),
             "a correct outer loop turns at most k times (Yen) or once per intersection vertex (single-via); budgets are 4x..8x those bounds".into(),
         ],
